@@ -115,6 +115,18 @@ def c17(tier, replay_file=None):
     try:
         exe = build_harness()
         wd = workdir("%s-%s" % (prop, "replay" if replay_file else tier))
+        if replay_file and json.load(open(replay_file)).get("engine") == "E3-unit-file-e2e":
+            rp = json.load(open(replay_file))
+            c = dict(rp["case"], id=str(rp["case"]["id"]).replace("e2e-", ""))
+            c17_e2e(res, exe, wd, [c], "quick")
+            if res.tool_errors:
+                log("TOOL-ERROR: " + res.tool_errors[0])
+                return 2
+            if res.violations:
+                log("VIOLATION property=C17 replay=%s clause=%s" % (replay_file, res.violations[0][0]))
+                return 1
+            log("replay: C17 holds for the unit file the real binary writes for this pattern list")
+            return 0
         if replay_file:
             rp = json.load(open(replay_file))
             cases = [rp["case"]]
@@ -161,6 +173,9 @@ def c17(tier, replay_file=None):
         scal = {}
         if not res.tool_errors:
             scal = c17_scalars(res, exe, wd, tier)
+        e2e = {}
+        if not res.tool_errors:
+            e2e = c17_e2e(res, exe, wd, cases, tier)
         report(res, bad, kn, case_by_id, result_by_id, "E3-unit-file")
         if judged != len(cases) and not res.tool_errors:
             res.tool_errors.append("judged %d of %d cases" % (judged, len(cases)))
@@ -175,6 +190,7 @@ def c17(tier, replay_file=None):
             "pattern_lists": len(cases), "exhaustive": False,
         }
         res.coverage.update(scal)
+        res.coverage.update(e2e)
         if tier == "thorough" and not res.tool_errors:
             res.coverage.update(sd_oracle_check(res, wd, tier))
         res.assumptions = ["SystemdExec.tla is a faithful transcription of systemd 252's ExecStart reader (cross-checked against the real `systemd --test` in the thorough tier when available)",
@@ -197,6 +213,68 @@ def source_tokens(path, cap=400):
             if 0 < len(t) <= 40 and "\x00" not in t and t not in toks:
                 toks.append(t)
     return toks[:cap]
+
+
+def c17_e2e(res, exe, wd, cases, tier):
+    """The unit file as the real binary writes it: `totalmapper add_systemd_service --layout-file F --exclude=P ...` in a mount namespace with a scratch
+    /etc (copies of the account files plus the `input` group and the `totalmapper` user, so that the steps before the unit is written succeed) and a
+    tmpfs /dev with a uinput node; the ExecStart line of /etc/systemd/system/totalmapper@.service is judged by the same SvcCheck. Covers the command
+    line plumbing (main.rs collects the --exclude values) and write_systemd_service, which the in-process cases bypass."""
+    import subprocess, shutil
+    ok, why = namespaces_available()
+    if not ok:
+        res.notes.append("end-to-end unit file skipped: cannot create a mount namespace here (%s)" % why)
+        return {"e2e_units": 0}
+    t0 = time.time()
+    binp = build_real_binary()
+    d = os.path.join(wd, "unit")
+    shutil.rmtree(d, ignore_errors=True)
+    etc = os.path.join(d, "etc")
+    os.makedirs(os.path.join(etc, "udev"))
+    os.makedirs(os.path.join(etc, "systemd", "system"))
+    for f in ("passwd", "group", "shadow", "gshadow", "login.defs", "nsswitch.conf"):
+        if os.path.exists("/etc/" + f):
+            shutil.copy("/etc/" + f, os.path.join(etc, f))
+    with open(os.path.join(etc, "group"), "a") as f:
+        f.write("input:x:995:\n")
+    if os.path.exists(os.path.join(etc, "gshadow")):
+        with open(os.path.join(etc, "gshadow"), "a") as f:
+            f.write("input:!::\n")
+    with open(os.path.join(etc, "passwd"), "a") as f:
+        f.write("totalmapper:x:994:995::/nonexistent:/usr/sbin/nologin\n")
+    with open(os.path.join(etc, "shadow"), "a") as f:
+        f.write("totalmapper:!:19000::::::\n")
+    lay = os.path.join(d, "in.json")
+    json.dump({"mappings": [{"from": "A", "to": "B"}]}, open(lay, "w"))
+    unit = os.path.join(etc, "systemd", "system", "totalmapper@.service")
+    want = 50 if tier == "quick" else 600
+    # patterns an argv can carry (no NUL; UTF-8 encodable) - lists of every length, spread over the family
+    usable = [c for c in cases if all(p and all(0 < cp < 0x110000 and not (0xD800 <= cp <= 0xDFFF) for cp in p) for p in c["pats"])]
+    sel = usable[::max(1, len(usable) // want)][:want]
+    rows = []
+    for c in sel:
+        if os.path.exists(unit):
+            os.remove(unit)
+        args = ["--exclude=" + "".join(chr(cp) for cp in p) for p in c["pats"]]
+        script = ("mount --bind %s /etc && mount -t tmpfs tmpfs /dev && mknod /dev/uinput c 10 223 && mknod /dev/null c 1 3 && chmod 666 /dev/null && "
+                  "exec \"$0\" add_systemd_service --layout-file %s \"$@\"" % (etc, lay))
+        subprocess.run(["unshare", "-m", "sh", "-c", script, binp] + args, stdout=subprocess.PIPE, stderr=subprocess.PIPE, timeout=60)
+        rows.append({"id": "e2e-%s" % c["id"], "pats": c["pats"], "text": open(unit, encoding="utf-8", errors="surrogateescape").read() if os.path.exists(unit) else ""})
+    shutil.rmtree(etc, ignore_errors=True)
+    cp_ = os.path.join(wd, "e2e_unit_cases.ndjson")
+    write_ndjson(cp_, rows)
+    rp = os.path.join(wd, "e2e_unit_results.ndjson")
+    run_tmv(exe, ["svcfile", cp_], stdout_path=rp)
+    nounit = sum(1 for r in rows if not r["text"])
+    if nounit == len(rows) and rows:
+        res.notes.append("end-to-end unit file: the real binary wrote no unit in the scratch namespace (%d cases); skipped" % len(rows))
+        return {"e2e_units": 0}
+    judged, nontriv, bad, kn, _ = judge(res, wd, "SvcCheck", [rp], known_ids("C17"))
+    by = {r["id"]: {"id": r["id"], "pats": r["pats"]} for r in rows}
+    report(res, bad, kn, by, {r["id"]: {"unit_text": r["text"][-600:]} for r in rows}, "E3-unit-file-e2e")
+    log("[record] real add_systemd_service in a mount namespace wrote %d unit files (%d without a unit), judged by SvcCheck, %.1fs" % (len(rows), nounit, time.time() - t0))
+    return {"e2e_units": judged, "e2e_units_how": "the real binary's add_systemd_service --exclude=... under unshare -m with a scratch /etc and a tmpfs /dev: the ExecStart line of the unit file it "
+                                                  "wrote is decoded by SystemdExec.tla like the in-process cases (command-line plumbing and write_systemd_service included)"}
 
 
 def c17_scalars(res, exe, wd, tier):
